@@ -42,7 +42,21 @@ where
     report.unfreeze();
 }
 
-/// Same, on several worker threads (each with a derived seed).
+/// Samples are recorded only during the sequential pre-pass of `drive_parallel` (and in
+/// sequential drivers), so the evidence file is the same on every run with the same seed.
+static SAMPLING: std::sync::atomic::AtomicBool = std::sync::atomic::AtomicBool::new(true);
+
+pub fn sample(report: &Report, kind: &str, max_per_kind: usize, v: impl FnOnce() -> Value) {
+    if SAMPLING.load(std::sync::atomic::Ordering::SeqCst) {
+        report.sample(kind, max_per_kind, v);
+    }
+}
+
+/// Fixed number of workers: the case stream must not depend on the machine.
+pub const WORKERS: usize = 8;
+
+/// Same, on `WORKERS` threads (each with a derived seed) after a short sequential pre-pass that
+/// provides the evidence samples deterministically.
 pub fn drive_parallel<S, F, J, M>(report: &Report, name: &str, cases: u32, make: M, f: F, to_json: J)
 where
     S: Strategy,
@@ -54,8 +68,16 @@ where
     if report.violation_count() > 0 {
         return;
     }
-    let workers = vcore::num_workers().min(8);
-    if let Some((value, fail)) = vcore::run_prop_parallel(report, name, cases, workers, make, f) {
+    let pre = 32.min(cases);
+    if let Some((value, fail)) = vcore::run_prop_seeded(report, vcore::derive_seed(report.seed, name, 1_000_003), pre, make(), &f) {
+        report.violation(name, &fail, to_json(&value));
+        report.unfreeze();
+        return;
+    }
+    SAMPLING.store(false, std::sync::atomic::Ordering::SeqCst);
+    let r = vcore::run_prop_parallel(report, name, cases - pre, WORKERS, make, f);
+    SAMPLING.store(true, std::sync::atomic::Ordering::SeqCst);
+    if let Some((value, fail)) = r {
         report.violation(name, &fail, to_json(&value));
     }
     report.unfreeze();
